@@ -7,8 +7,9 @@
 # (3) pairs: constructing / decoding with any second command class in between never changes what the first
 #     command's class encodes or decodes (all ordered pairs of classes, all argument values);
 # (4) determinism: equal inputs give equal bytes.
-# Thread interleavings are not enumerated: (1)+(2) give non-interference for every order and interleaving
-# (meta-theorem, DESIGN.md 6 C09); a native two-thread stress run is a bounded confirmation in the thorough tier.
+# Thread interleavings: (1)+(2) give non-interference for every order and interleaving (meta-theorem, DESIGN.md 6
+# C09).  A failed frame obligation becomes a VIOLATION only with a replayed interference: sequential histories
+# first, then controlled two-thread schedules at source-line granularity (interleaved / thread_search below).
 import ast
 import importlib
 import inspect
@@ -347,6 +348,152 @@ def _child(order, prefix_json):
     print("OBS" + json.dumps(obs))
 
 
+# ---- thread interleavings (the property's "concurrently in another thread"): a controlled scheduler.  Thread A
+# observes one class under sys.settrace; at line boundaries of the library's own source files control is handed
+# (threading.Event) to a second, real thread that builds and uses its own command of another class to completion,
+# then A resumes.  Two schedules: a switch at EVERY line boundary, and (preemption bound 1) a single switch at each
+# line boundary in turn.  A's observation is compared with the one it gives alone.
+
+
+def observe_one(cls):
+    import binascii
+
+    key = L.layout_key(cls)
+    lay = L.CDB[key]
+    sets = sets_offering(key)
+    if not sets:
+        return None
+    s, how = sets[0]
+    vals = {p: _pattern(f.width, p) for p, f in lay.fields.items()}
+    try:
+        cmd = cls(C.find_opcode(s, how), **_ctor_kwargs(cls, key, vals, bytearray(8)))
+        cdb = bytes(cmd.cdb)
+        dec = cls.unmarshall_cdb(cmd.cdb)
+        re = bytes(cls.marshall_cdb(dec))
+        return [binascii.hexlify(cdb).decode(), {k: (v if isinstance(v, int) else repr(v)) for k, v in dec.items()}, binascii.hexlify(re).decode()]
+    except Exception as ex:
+        return ["raised", type(ex).__name__, str(ex)[:80]]
+
+
+def interleaved(run_a, run_b, only_at=None):
+    """run_a in thread A; at line boundary number only_at (every boundary when None) of library code executed by A,
+    thread B runs run_b once to completion.  Returns (result of A, number of line boundaries seen)."""
+    import threading
+
+    go, done, stop = threading.Event(), threading.Event(), threading.Event()
+    box = {"lines": 0}
+
+    def thread_b():
+        while True:
+            go.wait()
+            go.clear()
+            if stop.is_set():
+                return
+            try:
+                run_b()
+            except Exception:
+                pass
+            done.set()
+
+    def local(frame, event, arg):
+        if event == "line":
+            i = box["lines"]
+            box["lines"] = i + 1
+            if only_at is None or only_at == i:
+                go.set()
+                done.wait()
+                done.clear()
+        return local
+
+    def tracer(frame, event, arg):
+        fn = frame.f_code.co_filename.replace(os.sep, "/")
+        return local if "/pyscsi/" in fn and "/verif/" not in fn else None
+
+    def thread_a():
+        sys.settrace(tracer)
+        try:
+            box["result"] = run_a()
+        finally:
+            sys.settrace(None)
+
+    tb = threading.Thread(target=thread_b, daemon=True)
+    ta = threading.Thread(target=thread_a)
+    tb.start()
+    ta.start()
+    ta.join()
+    stop.set()
+    go.set()
+    tb.join(5)
+    return box.get("result"), box["lines"]
+
+
+def _child_threads(chunk, nchunks):
+    import json
+    import contextlib
+    import io
+
+    from spec import stubs
+
+    stubs.install()
+    import contracts
+
+    contracts.load_all()
+    classes = sorted(_simple_classes(), key=lambda c: L.layout_key(c))
+    by_len = {}
+    with contextlib.redirect_stdout(io.StringIO()):
+        alone = {L.layout_key(c): observe_one(c) for c in classes}
+    for c in classes:
+        o = alone[L.layout_key(c)]
+        if o and o[0] != "raised":
+            by_len.setdefault(len(o[0]) // 2, []).append(c)
+    others = [v[0] for k, v in sorted(by_len.items())] + [v[-1] for k, v in sorted(by_len.items()) if len(v) > 1]
+    found, runs = [], 0
+    with contextlib.redirect_stdout(io.StringIO()):
+        for i, a in enumerate(classes):
+            if i % nchunks != chunk or alone[L.layout_key(a)] is None:
+                continue
+            ka = L.layout_key(a)
+            for b in others:
+                if b is a:
+                    continue
+                kb = L.layout_key(b)
+                got, lines = interleaved(lambda: observe_one(a), lambda: observe_one(b))
+                runs += 1
+                hit = got != alone[ka]
+                if hit:
+                    found.append([ka, kb, "a switch at every line boundary", alone[ka], got])
+                    continue
+                for at in range(lines):
+                    got, _ = interleaved(lambda: observe_one(a), lambda: observe_one(b), only_at=at)
+                    runs += 1
+                    if got != alone[ka]:
+                        found.append([ka, kb, "one switch, at line boundary %d of %d" % (at, lines), alone[ka], got])
+                        break
+            if len(found) >= 6:
+                break
+    print("THR" + json.dumps({"found": found, "runs": runs}))
+
+
+def thread_search(nchunks=12):
+    import json
+    import subprocess
+    from concurrent.futures import ThreadPoolExecutor
+
+    env = dict(os.environ, PYTHONPATH=os.pathsep.join([VERIF_DIR, os.environ.get("PYSCSI_REPO", "/repo")]), PYTHONDONTWRITEBYTECODE="1")
+
+    def one(chunk):
+        p = subprocess.run([sys.executable, "-B", "-c", "import contracts.isolation as m, sys; m._child_threads(int(sys.argv[1]), int(sys.argv[2]))", str(chunk), str(nchunks)],
+                           capture_output=True, text=True, timeout=1200, env=env, cwd=VERIF_DIR)
+        for line in p.stdout.splitlines():
+            if line.startswith("THR"):
+                return json.loads(line[3:])
+        raise RuntimeError("thread-schedule process failed: " + (p.stderr or p.stdout)[-400:])
+
+    with ThreadPoolExecutor(max_workers=nchunks) as ex:
+        res = list(ex.map(one, range(nchunks)))
+    return [f for r in res for f in r["found"]], sum(r["runs"] for r in res)
+
+
 def replay(doc):
     """custom replay (pyvc.replay): 1 = interference reproduced, 0 = none found"""
     offending = {"kind": "offending", "unit": doc["unit"], "case": doc["case"], "inputs": doc["inputs"]}
@@ -368,7 +515,15 @@ def replay(doc):
                 found.append((k, base_label, base[k], label, obs[k]))
     print("failed frame obligation:", doc["obligation"])
     if not found:
-        print("NOT REPRODUCED: %d histories (orders, after the offending call, after base-class calls) give identical observations for all command classes" % len(histories))
+        tfound, runs = thread_search()
+        if tfound:
+            for ka, kb, sched, o0, o1 in tfound[:6]:
+                print("INTERFERENCE (threads): %s built and used in thread A while thread B builds %s, schedule: %s" % (ka, kb, sched))
+                print("              alone      : %s" % str(o0)[:200])
+                print("              interleaved: %s" % str(o1)[:200])
+            print("REPRODUCED: what a command encodes/decodes depends on a command another thread builds at the same time (%d controlled schedules run)" % runs)
+            return 1
+        print("NOT REPRODUCED: %d sequential histories (orders, after the offending call, after base-class calls) and %d controlled two-thread schedules (a switch at every line boundary; one switch at each line boundary) give identical observations for all command classes" % (len(histories), runs))
         return 0
     for k, l0, o0, l1, o1 in found[:6]:
         print("INTERFERENCE: %s observed in [%s]: %s" % (k, l0, str(o0)[:200]))
